@@ -96,6 +96,41 @@ def public_callables(repo=None):
     return out
 
 
+def imported_modules(repo=None):
+    """top-level module names the package imports anywhere (also inside functions / try blocks)"""
+    repo = repo or os.environ.get("VERIF_REPO", "/repo")
+    out = set()
+    for dp, dn, fn in os.walk(os.path.join(repo, "webauthn")):
+        for f in fn:
+            if f.endswith(".py"):
+                try:
+                    tree = ast.parse(open(os.path.join(dp, f), encoding="utf-8").read())
+                except Exception:
+                    continue
+                for node in ast.walk(tree):
+                    if isinstance(node, ast.Import):
+                        out |= {a.name.split(".")[0] for a in node.names}
+                    elif isinstance(node, ast.ImportFrom) and node.module and node.level == 0:
+                        out.add(node.module.split(".")[0])
+                    elif isinstance(node, ast.Call) and getattr(node.func, "attr", getattr(node.func, "id", "")) in ("import_module", "__import__", "find_spec") and node.args and isinstance(node.args[0], ast.Constant) and isinstance(node.args[0].value, str):
+                        out.add(node.args[0].value.split(".")[0])
+    return out
+
+
+def new_imports(repo=None):
+    """modules the CHANGED source imports and the pinned source did not"""
+    try:
+        base = set(json.load(open(BASELINE)).get("imports", []))
+    except Exception:
+        base = set()
+    return sorted(imported_modules(repo) - base) if base else []
+
+
+def paths():
+    """new string literals that look like absolute file-system paths"""
+    return [s for s in new()["str"] if re.fullmatch(r"/[A-Za-z0-9_./-]{3,100}", s) and not s.startswith("//")][:6]
+
+
 def new_callables(repo=None):
     try:
         base = set(json.load(open(BASELINE)).get("api", []))
@@ -108,6 +143,7 @@ def write_baseline(repo):
     h = harvest(repo)
     d = {k: sorted(v, key=str) for k, v in h.items()}
     d["api"] = sorted(public_callables(repo))
+    d["imports"] = sorted(imported_modules(repo))
     json.dump(d, open(BASELINE, "w"), indent=0)
 
 
